@@ -3,7 +3,7 @@ from __future__ import annotations
 
 from .. import observe, dialects
 from ..common import h64, short
-from .base import rng, shards, apply_parse_monitors, cover_transitions
+from .base import rng, shards, apply_parse_monitors, cover_transitions, ReusedEnv
 from . import doccheck
 
 ID = "C13"
@@ -155,7 +155,7 @@ def erase(o, first_line, shift):
     return o
 
 
-def check_case(seed, i, M):
+def check_case(seed, i, M, env=None):
     r = rng(seed, ID, "doc", i)
     names = sorted(dialects.master())
     dialect = "en" if r.random() < 0.5 else r.choice(names)
@@ -163,7 +163,12 @@ def check_case(seed, i, M):
     text, intent = build(r, dialect)
     M.case(h64(text))
     case = {"kind": "doc", "seed": seed, "index": i, "text": text}
-    o = observe.parse_observed(text)
+    if env is not None and i % 3 == 0:
+        # same document on objects that parsed other documents before (also ones ending inside a doc string)
+        o = env.parse(text, M)
+        case = {"kind": "shard", "spec": env.spec, "index": i, "text": text}
+    else:
+        o = observe.parse_observed(text)
     apply_parse_monitors(o, M, case, {"G3", "G4"})
     cover_transitions(o, M)
     M.hist("places", intent["place"])
@@ -229,12 +234,17 @@ def plan(tier, seed):
 
 
 def run_shard(spec, M):
+    env = ReusedEnv(rng(spec["seed"], ID, "reuse", spec["shard"]))
+    env.spec = spec
     for i in range(spec["start"], spec["start"] + spec["n"]):
-        check_case(spec["seed"], i, M)
+        check_case(spec["seed"], i, M, env)
 
 
 def replay(case, M):
-    check_case(case["seed"], case["index"], M)
+    if case["kind"] == "shard":
+        run_shard(case["spec"], M)
+    else:
+        check_case(case["seed"], case["index"], M)
 
 
 def finish(M, tier):
